@@ -56,7 +56,7 @@ func typeInventory(pkgs []*packages.Package) []string {
 
 type sroaVar struct {
 	obj   *types.Var
-	def   *ast.AssignStmt
+	def   ast.Stmt
 	lit   *ast.CompositeLit
 	st    *types.Struct
 	named *types.Named
@@ -71,23 +71,46 @@ func sroaCandidates(pkgs []*packages.Package, baseTypes map[string]bool, skip ma
 	for _, d := range moduleDecls(pkgs) {
 		info := d.pkg.TypesInfo
 		ast.Inspect(d.decl.Body, func(n ast.Node) bool {
-			as, ok := n.(*ast.AssignStmt)
-			if !ok || as.Tok != token.DEFINE || len(as.Lhs) != 1 || len(as.Rhs) != 1 {
+			var id *ast.Ident
+			var lit *ast.CompositeLit
+			var defStmt ast.Stmt
+			var declType types.Type
+			switch x := n.(type) {
+			case *ast.AssignStmt:
+				if x.Tok != token.DEFINE || len(x.Lhs) != 1 || len(x.Rhs) != 1 {
+					return true
+				}
+				i2, ok := x.Lhs[0].(*ast.Ident)
+				if !ok || i2.Name == "_" {
+					return true
+				}
+				rhs := ast.Unparen(x.Rhs[0])
+				if u, isU := rhs.(*ast.UnaryExpr); isU && u.Op == token.AND {
+					rhs = ast.Unparen(u.X)
+				}
+				l2, ok := rhs.(*ast.CompositeLit)
+				if !ok {
+					return true
+				}
+				id, lit, defStmt, declType = i2, l2, x, info.TypeOf(l2)
+			case *ast.DeclStmt:
+				// var v T
+				gd, ok := x.Decl.(*ast.GenDecl)
+				if !ok || gd.Tok != token.VAR || len(gd.Specs) != 1 {
+					return true
+				}
+				vs, ok := gd.Specs[0].(*ast.ValueSpec)
+				if !ok || len(vs.Names) != 1 || vs.Type == nil || len(vs.Values) != 0 || vs.Names[0].Name == "_" {
+					return true
+				}
+				id, defStmt, declType = vs.Names[0], x, info.TypeOf(vs.Type)
+			default:
 				return true
 			}
-			id, ok := as.Lhs[0].(*ast.Ident)
-			if !ok || id.Name == "_" {
+			if declType == nil {
 				return true
 			}
-			rhs := ast.Unparen(as.Rhs[0])
-			if u, isU := rhs.(*ast.UnaryExpr); isU && u.Op == token.AND {
-				rhs = ast.Unparen(u.X)
-			}
-			lit, ok := rhs.(*ast.CompositeLit)
-			if !ok {
-				return true
-			}
-			named, ok := types.Unalias(info.TypeOf(lit)).(*types.Named)
+			named, ok := types.Unalias(declType).(*types.Named)
 			if !ok || named.Obj().Pkg() == nil || !strings.HasPrefix(named.Obj().Pkg().Path(), Mod) || named.TypeArgs().Len() > 0 {
 				return true
 			}
@@ -100,13 +123,15 @@ func sroaCandidates(pkgs []*packages.Package, baseTypes map[string]bool, skip ma
 				return true
 			}
 			// keyed literal (or empty)
-			for _, el := range lit.Elts {
-				if _, isKV := el.(*ast.KeyValueExpr); !isKV {
-					return true
+			if lit != nil {
+				for _, el := range lit.Elts {
+					if _, isKV := el.(*ast.KeyValueExpr); !isKV {
+						return true
+					}
 				}
 			}
 			// every other occurrence is v.f with f a direct field
-			v := sroaVar{obj: obj, def: as, lit: lit, st: st, named: named, encl: d.decl, file: d.file, pkg: d.pkg}
+			v := sroaVar{obj: obj, def: defStmt, lit: lit, st: st, named: named, encl: d.decl, file: d.file, pkg: d.pkg}
 			okUses := true
 			var stack []ast.Node
 			ast.Inspect(d.decl.Body, func(m ast.Node) bool {
@@ -151,6 +176,10 @@ func sroaStep(v sroaVar, content []byte) ([]byte, string, error) {
 	src := func(n ast.Node) string { return string(content[tf.Offset(n.Pos()):tf.Offset(n.End())]) }
 	var qerr error
 	qual := fileQualifier(v.pkg, v.file, &qerr)
+	var elts []ast.Expr
+	if v.lit != nil {
+		elts = v.lit.Elts
+	}
 	// a field keeps its own name as a local when nothing else in the function is called that (the usual case:
 	// the fields were named after the locals they replaced); otherwise it is prefixed with the variable's name
 	taken := map[string]bool{}
@@ -181,7 +210,7 @@ func sroaStep(v sroaVar, content []byte) ([]byte, string, error) {
 		for _, u := range v.uses {
 			skipIdent[u.Sel] = true
 		}
-		for _, el := range v.lit.Elts {
+		for _, el := range elts {
 			if kv, ok := el.(*ast.KeyValueExpr); ok {
 				if k, ok := kv.Key.(*ast.Ident); ok {
 					skipIdent[k] = true
@@ -208,7 +237,7 @@ func sroaStep(v sroaVar, content []byte) ([]byte, string, error) {
 	}
 	given := map[string]ast.Expr{}
 	var order []string
-	for _, el := range v.lit.Elts {
+	for _, el := range elts {
 		kv := el.(*ast.KeyValueExpr)
 		k, ok := kv.Key.(*ast.Ident)
 		if !ok {
